@@ -1,4 +1,4 @@
-import NfcVerif.Model.DlcLlc
+import NfcVerif.Model.DlcSap
 open NfcVerif NfcVerif.Dlc
 
 /-- driver state: the modelled system plus the link configuration and frame boundaries -/
@@ -104,15 +104,141 @@ def handle (d : D) (line : String) : D × String :=
     | none => (d, "bad-op")
   | _ => (d, "bad-op")
 
-partial def loop (inp out : IO.FS.Stream) (d : D) : IO Unit := do
+/-! ## several sockets per access point: two controllers (`Model/DlcSap.lean`), lines start with `N` -/
+open NfcVerif.DlcSap in
+def showW (w : WPdu) : String :=
+  s!"{w.ssap}>{w.dsap}:" ++ (match w.body with
+    | .conn miu rw none => s!"CONN:{miu}:{rw}:-"
+    | .conn miu rw (some n) => s!"CONN:{miu}:{rw}:n{n}"
+    | .cc miu rw => s!"CC:{miu}:{rw}"
+    | .dlc p => showPdu p)
+
+open NfcVerif.DlcSap in
+def showWName (w : WPdu) : String :=
+  match w.body with
+  | .conn .. => "CONNECT"
+  | .cc .. => "CC"
+  | .dlc (.dm r) => s!"DM{r}"
+  | .dlc (.i ns _ _) => s!"I{ns}"
+  | .dlc (.iNone ns _) => s!"I{ns}"
+  | .dlc (.rr _) => "RR" | .dlc (.rnr _) => "RNR" | .dlc .disc => "DISC" | .dlc (.frmr ..) => "FRMR"
+
+def showOpt : Option Nat → String
+  | none => "-" | some n => toString n
+
+open NfcVerif.DlcSap in
+def showSock (c : Ctl) (s : Sock) : String :=
+  let st := match s.cs with
+    | .closed => "CLOSED" | .listen => "LISTEN" | .connect => "CONNECT" | .run => showSt s.ep.st
+  let e := s.ep
+  let m := match s.cs with
+    | .run => s!"{e.sendMiu}/{e.recvMiu}/{e.sendWin}/{e.recvWin}"
+    | _ => s!"-/{s.rmiu}/-/{s.rwin}/b{s.buf}"
+  let sq := s.lq.map showWName ++ (match s.cs with | .run => e.sq.map showOut | _ => [])
+  let rq := match s.cs with
+    | .run => e.rq.map showRq
+    | _ => s.cq.map showWName ++ (match s.ans with | some w => [showWName w] | none => [])
+  s!"{s.sid}:{showOpt s.addr}:{showOpt s.peer}:{st}:{b01 (c.listed s.sid)}:m={m}:" ++
+  s!"{e.vs},{e.vsa},{e.vr},{e.vra},{e.confs},{e.acks},{b01 e.busy}{b01 e.busySent}{b01 e.sendBusy}," ++
+  "sq=" ++ ";".intercalate sq ++ ",rq=" ++ ";".intercalate rq
+
+open NfcVerif.DlcSap in
+def showCtl (c : Ctl) : String :=
+  let all := (c.saps.flatMap (·.socks)) ++ c.free
+  let socks := (List.range c.nsock).filterMap fun i => (all.find? (·.sid == i)).map (showSock c)
+  let saps := c.saps.map fun a => s!"{a.addr}=[" ++ ",".intercalate (a.socks.map (toString ·.sid)) ++ s!"]/{a.sendList.length}"
+  let names := c.names.map fun na => s!"n{na.1}@{na.2}"
+  "{" ++ " ".intercalate socks ++ "}{" ++ " ".intercalate saps ++ "}{" ++ ",".intercalate names ++ "}dm" ++ toString c.dmq.length
+
+open NfcVerif.DlcSap in
+def ndigest (n : Net) : String :=
+  s!"A{showCtl n.a} B{showCtl n.b} w={(n.wab.map List.length).sum}/{(n.wba.map List.length).sum}"
+
+open NfcVerif.DlcSap in
+def showNRes : NRes → String
+  | .r x => showRes x
+  | .sock n => s!"ok {n}"
+  | .refused r => s!"refused {r}"
+  | .na => "n/a"
+
+open NfcVerif.DlcSap in
+def parseDest (t : String) : Option Dest :=
+  if t.startsWith "a" then (t.drop 1).toNat?.map Dest.addr
+  else if t.startsWith "n" then (t.drop 1).toNat?.map Dest.name
+  else none
+
+def parsePoll : String → Option PollKind
+  | "recv" => some .recv | "send" => some .send | "acks" => some .acks | _ => none
+
+open NfcVerif.DlcSap in
+def parseCOp : List String → Option COp
+  | ["Nsock", rw, miu, to] => match rw.toNat?, miu.toNat?, parseDest to with
+    | some rw, some miu, some to => some (.sock rw miu to) | _, _, _ => none
+  | ["Nlisten", i, b] => match i.toNat?, b.toNat? with
+    | some i, some b => some (.listen i b) | _, _ => none
+  | ["Nconnect", i, to] => match i.toNat?, parseDest to with
+    | some i, some to => some (.connect i to) | _, _ => none
+  | ["Nconnfin", i] => i.toNat?.map .connFin
+  | ["Naccept", i] => i.toNat?.map .accept
+  | ["Nsend", i, h] => match i.toNat?, parseHex h with
+    | some i, some m => some (.send i m) | _, _ => none
+  | ["Nrecv", i] => i.toNat?.map .recv
+  | ["Nbusy", i, b] => i.toNat?.map (.busy · (b = "1"))
+  | ["Npoll", i, k] => match i.toNat?, parsePoll k with
+    | some i, some k => some (.poll i k) | _, _ => none
+  | ["Nclose", i] => i.toNat?.map .close
+  | ["Nclosefin", i] => i.toNat?.map .closeFin
+  | ["Nsdeq", a, b] => match a.toNat?, b.toInt? with
+    | some a, some b => some (.sdeq a b) | _, _ => none
+  | ["Nsack", a] => a.toNat?.map .sack
+  | ["Ncollect"] => some .collect
+  | _ => none
+
+open NfcVerif.DlcSap in
+def nhandle (n : Net) (line : String) : Net × String :=
+  match line.splitOn " " with
+  | ["Ninit", l, g] => match l.toNat? with
+    | some l => (Net.init l (g = "1"), "ok")
+    | none => (n, "bad-op")
+  | ["Ndeliver", x] => match parseSide x with
+    | some x =>
+      let k := match x with | .A => n.wba.head?.map List.length | .B => n.wab.head?.map List.length
+      let r := n.step (.deliver x)
+      (r.1, match k with | some k => s!"ok {k}" | none => "empty")
+    | none => (n, "bad-op")
+  | tok :: x :: rest => match parseSide x, parseCOp (tok :: rest) with
+    | some x, some o =>
+      let before := match x with | .A => n.wab.length | .B => n.wba.length
+      let r := n.step (.op x o)
+      let w := match x with | .A => r.1.wab | .B => r.1.wba
+      let res := match o with
+        | .sdeq .. | .sack .. | .collect =>
+          if w.length > before then "frame " ++ " ".intercalate ((w.getLast?.getD []).map showW) else "none"
+        | _ => showNRes r.2
+      (r.1, res)
+    | _, _ => (n, "bad-op")
+  | _ => (n, "bad-op")
+
+structure DS where
+  d : D
+  n : NfcVerif.DlcSap.Net
+
+partial def loop (inp out : IO.FS.Stream) (st : DS) : IO Unit := do
   let line ← inp.getLine
   if line.isEmpty then
     out.flush
     return ()
-  let r := handle d (line.trimAscii.toString)
-  out.putStrLn (r.2 ++ " | " ++ digest r.1)
-  loop inp out r.1
+  let l := line.trimAscii.toString
+  if l.startsWith "N" then
+    let r := nhandle st.n l
+    out.putStrLn (r.2 ++ " | " ++ ndigest r.1)
+    loop inp out { st with n := r.1 }
+  else
+    let r := handle st.d l
+    out.putStrLn (r.2 ++ " | " ++ digest r.1)
+    loop inp out { st with d := r.1 }
 
 def main : IO Unit := do
   loop (← IO.getStdin) (← IO.getStdout)
-    { s := init ⟨128, 128, 1, 1, 128, 128, 1, 1⟩, link := 128, agf := false, fab := [], fba := [] }
+    { d := { s := init ⟨128, 128, 1, 1, 128, 128, 1, 1⟩, link := 128, agf := false, fab := [], fba := [] },
+      n := NfcVerif.DlcSap.Net.init 128 false }
